@@ -164,7 +164,7 @@ struct Setup {
 
 fn ts(r: usize) -> Option<TimeoutSettings> { Some(TimeoutSettings::new(Some(Duration::from_secs(4)), Some(Duration::from_secs(4)), Some(Duration::from_secs(4)), r).unwrap()) }
 
-fn setup(pos: Pos, r: usize, t: &mut Tape) -> Setup {
+fn setup(pos: Pos, r: usize, try_section: bool, challenge_then_silent: bool, t: &mut Tape) -> Setup {
     let port = 20_000 + t.draw(CFG, 1000) as u16;
     let addr = SocketAddr::new(SERVER_IP, port);
     // the servers' own choices (which malformed reply, challenge values, cut points) come from a tape
@@ -174,12 +174,13 @@ fn setup(pos: Pos, r: usize, t: &mut Tape) -> Setup {
     match pos {
         Pos::ValveInfo | Pos::ValvePlayers | Pos::ValveRules => {
             let st = ValveState::generate(t, false, false, Some(440), 8, 8);
-            let gs = GatheringSettings { players: GatherToggle::Enforce, rules: GatherToggle::Enforce, check_app_id: true };
             let k = match pos {
                 Pos::ValveInfo => 0,
                 Pos::ValvePlayers => 1,
                 _ => 2,
             };
+            let toggle = |section: usize| if try_section && k == section { GatherToggle::Try } else { GatherToggle::Enforce };
+            let gs = GatheringSettings { players: toggle(1), rules: toggle(2), check_app_id: true };
             let rounds = t.draw(CFG, 2) as u8;
             let kind_byte = [0x54u8, 0x55, 0x56][k];
             Setup {
@@ -187,6 +188,14 @@ fn setup(pos: Pos, r: usize, t: &mut Tape) -> Setup {
                 make: Box::new(move |v| {
                     let mut s = ValveServer::new(st.clone());
                     s.outcomes[k] = to_vm(v);
+                    if challenge_then_silent {
+                        // a silent attempt is realised as: the server hands out a challenge, then says nothing
+                        for o in s.outcomes[k].iter_mut() {
+                            if *o == vm::Outcome::Silent {
+                                *o = vm::Outcome::ChallengeThenSilent;
+                            }
+                        }
+                    }
                     s.enc[k].challenge_rounds = rounds;
                     let mut w = World::new(Tape::generate(wseed));
                     w.add_server(addr, Proto::Udp, Box::new(s));
@@ -290,7 +299,8 @@ fn setup(pos: Pos, r: usize, t: &mut Tape) -> Setup {
             let rules = st.rules_datagrams(1, t);
             let players = st.players_datagrams(1, t);
             let info = st.info_datagram();
-            let g = U2G { players: GatherToggle::Enforce, mutators_and_rules: GatherToggle::Enforce };
+            let toggle = |section: usize| if try_section && k == section { GatherToggle::Try } else { GatherToggle::Enforce };
+            let g = U2G { players: toggle(2), mutators_and_rules: toggle(1) };
             Setup {
                 call: call(Entry::Unreal2 { gather: g }),
                 make: Box::new(move |v| {
@@ -503,7 +513,7 @@ impl Prop for C10 {
     fn cases(&self, tier: Tier) -> u64 {
         let n = (cells().len() * POSITIONS.len()) as u64 + COMBOS;
         match tier {
-            Tier::Quick => n * 2,
+            Tier::Quick => n * 4,
             Tier::Thorough => n * 60,
         }
     }
@@ -524,7 +534,13 @@ impl Prop for C10 {
         let (r, vec) = all[cell / POSITIONS.len()].clone();
         // how "silent" is realised: the server stays silent (== request or reply lost), or the send fails
         let send_error = rep % 2 == 1;
-        let su = setup(pos, r, &mut t);
+        // Valve: a third realisation of "silent" is a challenge that is never followed by the reply
+        let is_valve = matches!(pos, Pos::ValveInfo | Pos::ValvePlayers | Pos::ValveRules);
+        let challenge_then_silent = is_valve && rep % 3 == 2 && !send_error;
+        // optional sections: with the toggle on Try the failure of the section does not fail the query
+        let optional_section = matches!(pos, Pos::ValvePlayers | Pos::ValveRules | Pos::U2Rules | Pos::U2Players);
+        let try_section = optional_section && (rep / 2) % 2 == 1;
+        let su = setup(pos, r, try_section, challenge_then_silent, &mut t);
         // ---- fault-free reference run of the same scenario
         let ff = run_call((su.make)(&[]), &su.call);
         out.absorb(&ff.world);
@@ -564,10 +580,16 @@ impl Prop for C10 {
                 O::V => {}
             }
         }
-        let run = run_call(w, &su.call);
+        let mut run = run_call(w, &su.call);
         out.absorb(&run.world);
         let (exp_sends, exp) = reference(r, &vec);
         let observed_sends = run.world.os.unit_sends_seen as usize;
+        if try_section {
+            out.probe("section_on_try");
+        }
+        if challenge_then_silent {
+            out.probe("challenge_then_silent");
+        }
         let (class, json) = result_class(&run);
         let fam = format!("{pos:?}");
         if let Some(c) = &run.crash {
@@ -581,7 +603,60 @@ impl Prop for C10 {
                     format!("{observed_sends} attempts"),
                 ));
             }
+            // no request, whatever its place in the exchange, is transmitted more often than r+1 times
+            let mut counts: std::collections::HashMap<&Vec<u8>, usize> = std::collections::HashMap::new();
+            for h in &run.world.hist {
+                if let crate::world::Hist::UdpSend { data, .. } = h {
+                    *counts.entry(data).or_insert(0) += 1;
+                }
+            }
+            if let Some((d, n)) = counts.iter().max_by_key(|(d, n)| (**n, d.len())) {
+                if *n > r + 1 {
+                    out.violate(Violation::new(
+                        format!("{fam}|one-request-sent-too-often"),
+                        format!("retries={r}, attempt outcomes {vec:?}: one and the same request was transmitted {n} times"),
+                        format!("at most {} transmissions of any request", r + 1),
+                        format!("{n} x {}", d.iter().take(24).map(|b| format!("{b:02x}")).collect::<String>()),
+                    ));
+                }
+            }
+            // Valve: a challenge is echoed once; a timeout after it restarts the whole unit
+            if is_valve {
+                let kind_byte = match pos {
+                    Pos::ValveInfo => 0x54u8,
+                    Pos::ValvePlayers => 0x55,
+                    _ => 0x56,
+                };
+                let echoes = run
+                    .world
+                    .hist
+                    .iter()
+                    .filter(|h| matches!(h, crate::world::Hist::UdpSend { data, .. } if data.len() >= 9 && data[4] == kind_byte && !(su.is_unit)(data)))
+                    .count();
+                let mut w2 = run.world;
+                let issued = w2.server_mut::<ValveServer>(0).map_or(0, |s| s.issued.iter().filter(|(k, _)| k.idx() == (kind_byte - 0x54) as usize).count());
+                run.world = w2;
+                if echoes > issued {
+                    out.violate(Violation::new(
+                        format!("{fam}|challenge-echoed-more-than-once"),
+                        format!("retries={r}, attempt outcomes {vec:?}: {issued} challenges were issued for this request, {echoes} challenged requests were sent"),
+                        "one challenged request per challenge issued",
+                        format!("{echoes} challenged requests"),
+                    ));
+                }
+            }
             match exp {
+                // a failing optional section (toggle on Try) leaves a successful response without it
+                Expect::NonTimeoutError | Expect::TimeoutError if try_section => {
+                    if class != "ok" {
+                        out.violate(Violation::new(
+                            format!("{fam}|try-section/{class}"),
+                            format!("retries={r}, attempt outcomes {vec:?}, section on Try: its failure must not fail the query"),
+                            "Ok without the section",
+                            describe_result(&run.result, &run.crash),
+                        ));
+                    }
+                }
                 Expect::Valid => {
                     let same = json.as_ref().zip(ff_json.as_ref()).map_or(false, |(a, b)| json_diff(b, a).is_none());
                     if !same {
@@ -627,7 +702,7 @@ impl Prop for C10 {
 
     fn rule(&self) -> String {
         format!(
-            "case index enumerates {} cells = 48 multi-position cells (Valve / Unreal 2, timeouts of the first k attempts at 2 or 3 request positions of the same query, k <= r) + {} (r, outcome vector) pairs (r in 0..=3, all vectors over {{silent, malformed, valid}} of length 1..=r+2) x {} request positions (Valve info/players/rules, FFOW, GameSpy 1, 2, 3 handshake and data, JC2M handshake and data, Quake, Unreal 2 info/rules/players, Minecraft Java, Bedrock, legacy, Mindustry); repetitions alternate how 'silent' is realised (no reply == request or reply lost; send fails with an io::Error) and redraw the server state; every cell runs the fault-free scenario and the faulty one; oracle = a 10-line reference model of the retry rule; distinct = (cell, event-log hash)",
+            "case index enumerates {} cells = 48 multi-position cells (Valve / Unreal 2, timeouts of the first k attempts at 2 or 3 request positions of the same query, k <= r) + {} (r, outcome vector) pairs (r in 0..=3, all vectors over {{silent, malformed, valid}} of length 1..=r+2) x {} request positions (Valve info/players/rules, FFOW, GameSpy 1, 2, 3 handshake and data, JC2M handshake and data, Quake, Unreal 2 info/rules/players, Minecraft Java, Bedrock, legacy, Mindustry); repetitions alternate how 'silent' is realised (no reply == request or reply lost; send fails with an io::Error; Valve: a challenge that is never followed by the reply), whether an optional section (Valve players / rules, Unreal 2 rules / players) is on Enforce or on Try, which of several malformed forms is sent (truncated; complete but for another session or request id, or of another kind), and redraw the server state; every cell runs the fault-free scenario and the faulty one; oracle = a 10-line reference model of the retry rule for the attempt count of the unit and the result class (Try: the query succeeds without the section), plus: no request is transmitted more than r+1 times, a Valve challenge is echoed exactly once; distinct = (cell, event-log hash)",
             cells().len() * POSITIONS.len() + 48,
             cells().len(),
             POSITIONS.len()
@@ -636,13 +711,13 @@ impl Prop for C10 {
 
     fn assumptions(&self) -> Vec<String> {
         vec![
-            "sections under test are set to Enforce so that a failure is visible".into(),
+            "sections under test are set to Enforce (a failure fails the query) or to Try (it must not)".into(),
             "late replies (arriving after the timeout) are not in this property's quantifier and are not injected".into(),
             "a lost request and a lost reply are indistinguishable to the client and are realised as a silent server".into(),
         ]
     }
 
-    fn required_probes(&self) -> Vec<&'static str> { vec!["silent_attempt", "malformed_reply", "send_error"] }
+    fn required_probes(&self) -> Vec<&'static str> { vec!["silent_attempt", "malformed_reply", "send_error", "section_on_try", "challenge_then_silent"] }
 
     fn components(&self) -> Value { standard_components() }
 }
